@@ -66,6 +66,10 @@ def tasks(tier, seed):
         for k in range(8):
             ts.append({"part": "senders", "threads": 2, "accept": accept, "line": True, "bound": 2 if q else 4, "shard": [k, 8, 2], "name": "senders/2/%s/line/%d" % (accept, k)})
     ts.append({"part": "receivers", "line": False, "bound": 4 if q else 6, "name": "receivers/sync"})
+    for via in ("next", "method-next"):
+        ts.append({"part": "receivers", "line": False, "bound": 4 if q else 6, "via": via, "name": "receivers/%s/sync" % via})
+    ts.append({"part": "receivers", "line": True, "bound": 2, "via": "next", "shard": [0, 2, 2], "name": "receivers/next/line/0"})
+    ts.append({"part": "receivers", "line": True, "bound": 2, "via": "next", "shard": [1, 2, 2], "name": "receivers/next/line/1"})
     for k in range(4):
         ts.append({"part": "receivers", "line": True, "bound": 2, "shard": [k, 4, 2], "name": "receivers/line/%d" % k})
     # two threads calling recv_frame() directly (frame lock only): unfragmented frames
@@ -295,7 +299,9 @@ class ReceiversHarness:
                 def f():
                     while True:
                         try:
-                            v = ws.recv()
+                            # the receive entry point: recv() | next(ws) | ws.next() - all of them take part in "several threads receive"
+                            how = d.get("via", "recv")
+                            v = ws.recv() if how == "recv" else (next(ws) if how == "next" else ws.next())
                         except lib.websocket.WebSocketConnectionClosedException:
                             return
                         except Exception as e:  # noqa
